@@ -59,7 +59,9 @@ void DeclarationBinder::typeDeclarationAtTopWithTypeAtTop()
     TY_AT_TOP(auto ty, );
     typeableDecl->setType(ty);
 
-    if (!openFuncTys_.empty()) {
+    // Only a parameter contributes to the type of the function; a declaration
+    // nested in the parameter's specifiers (a member, an enumerator) doesn't.
+    if (!openFuncTys_.empty() && decl->kind() == SymbolKind::ParameterDeclaration) {
         PSY_ASSERT_2(openFuncTys_.top(), return);
         openFuncTys_.top()->addParameterType(ty);
     }
@@ -422,6 +424,20 @@ void DeclarationBinder::handleNonTypedefDeclarator(const DeclaratorSyntax* node)
         }
 
         case ScopeKind::FunctionPrototype: {
+            // A structure or union declared within a parameter declaration
+            // opens no scope: its members are fields, not parameters.
+            auto sym = containingUnitOrDeclaration();
+            if (sym->category() == SymbolCategory::Declaration
+                    && sym->asDeclaration()->category() == DeclarationCategory::Type
+                    && sym->asDeclaration()->asTypeDeclaration()->category() == TypeDeclarationCategory::Tag) {
+                auto tagTyDecl = sym->asDeclaration()->asTypeDeclaration()->asTagTypeDeclaration();
+                if (tagTyDecl->category() == TagDeclarationCategory::StructOrUnion) {
+                    auto fldDecl = bindDeclaration<FieldDeclarationSymbol>(node);
+                    tagTyDecl->addMember(fldDecl);
+                    break;
+                }
+            }
+
             TY_AT_TOP(auto ty, );
             switch (ty->kind()) {
                 case TypeKind::Array: {
